@@ -421,11 +421,18 @@ def run(chk):
                        'what a Swift/Kotlin/Scala/Go/TypeScript/Python decoder makes of the declaration (that @SerialName("x") means wire name x, ...) is the '
                        'reading fixed in Model/Lang/Decl.v; no target compiler is installed',
                        'real serde is consulted for the rename rules (serde_derive case.rs through libdrive serde_case), not for whole-enum JSON']
-    chk.prepare(need_cli=False)
+    chk.prepare(need_cli=True)
     if not chk.harness_ok:
         return
     rng = chk.rng
     corr = []
+    if chk.cli_ok:
+        # folder-output mode against the same crates generated alone (lib/multi.py): an enum's wire names, tag and content keys must
+        # not depend on what another crate of the run contains (seeded C02_f: the text of a same-named enum replayed)
+        import multi
+        g0 = Gen(rng)
+        nw = 12 if chk.tier == 'quick' else 150
+        multi.independent_crates(chk, [[progs.source(g0.program()[0]) for _ in range(rng.choice([2, 3, 3]))] for _ in range(nw)], multi.facet_enums, 'enum wire names, tag and content keys (C02)')
     # 1. the recorded witnesses, against the real code, first
     wcases = []
     for fid, (prog, it), targets in corpus():
